@@ -10,6 +10,11 @@ order follows by induction on the goal tree:
   cond / Conde(DFS) = c0 ++ (c1 ++ (c2 ++ ...))    (fold over reversed clauses, new stream first)
   builders are right folds over the reversed sequence (written order kept)
   dfs{} maps the 4 DFSGoal variants to the same 4 variants of the parent kind.
+ (round 4, shared) builders.check_all: the 15 goal-array builders (Conj/DFSConj/InferredConj/
+   Disj/DFSDisj x from_vec/from_array/from_conjunctions) are total right folds in reverse from the
+   neutral element; macro front end only appends to the sequences it collects (MIR call census of
+   reordering/dropping operations, confirmed exceptions by function); operator entry points'
+   typed signatures fix which search a named operator runs.
 """
 import streams
 import sym
@@ -142,6 +147,10 @@ def run(ctx, fb, cfg):
     R = "C05."
     if cfg == "lib-default":
         check_query_keeps_order(ctx, fb)
+        if fb.macros is not None:
+            import macrolib
+
+            macrolib.check_sequence_ops(ctx, fb.macros, R + "K6.front-end-only-appends")
     streams.check_mplus(ctx, lib, DFS, R + "K3.merge-dfs")
     streams.check_bind(ctx, lib, DFS, R + "K3.bind-dfs")
     streams.check_conj_solve(ctx, lib, DFS, R + "K3.conj-dfs", "<crate::operator::conj::DFSConj as crate::solver::Solve>::solve")
@@ -168,6 +177,10 @@ def run(ctx, fb, cfg):
         C14.check_fold(ctx, lib, R + "K6.builder", "crate::operator::conj::InferredConj::" + f, "InferredConj::new")
     C14.check_fold(ctx, lib, R + "K6.builder", "crate::operator::conj::InferredConj::from_conjunctions", "InferredConj::new", inner="InferredConj::from_array")
     C13.check_conde_builder(ctx, lib, R + "K6.conde-builder")
+    import builders
+
+    builders.check_all(ctx, lib, R + "K6.builders")
+    streams.check_operator_kinds(ctx, lib, R + "K10.operator-search-kind")
 
 
 def check_from_conjunctions(ctx, lib, rule, fn_suffix, unit, new, inner):
